@@ -777,10 +777,19 @@ fn insert_directive(t: &mut Tape, src: &str) -> Option<(String, String)> {
     let node_text = &src[f.start..f.end];
     let ugly = uglify(t, node_text);
     let in_math = matches!(f.parent, Some(K::Math | K::MathDelimited | K::MathAttach | K::MathFrac | K::MathRoot)) || f.node.kind() == K::Math;
-    let directive = match t.weighted(&[6, if in_math { 0 } else { 3 }, 1]) {
-        0 => "/* @typstyle off */ ".to_string(),
-        1 => "// @typstyle off\n".to_string(),
-        _ => "/* @typstyle off */".to_string(),
+    // any comment CONTAINING the directive counts: reasons, punctuation and quotes next to it
+    const BLOCK: &[&str] = &[
+        "/* @typstyle off */ ", "/* @typstyle off */", "/*@typstyle off*/", "/* (@typstyle off) */ ", "/* @typstyle off, see #12 */ ",
+        "/* hand-aligned, hence @typstyle off. */", "/* \"@typstyle off\" */ ", "/* keep:@typstyle off*/", "/* note\n   @typstyle off */ ",
+        "/** @typstyle off **/",
+    ];
+    const LINE: &[&str] = &[
+        "// @typstyle off\n", "//@typstyle off\n", "/// @typstyle off\n", "// @typstyle off: hand-aligned\n", "// (@typstyle off)\n",
+        "// table below -- @typstyle off.\n", "// @typstyle off   \n",
+    ];
+    let directive = match t.weighted(&[6, if in_math { 0 } else { 3 }]) {
+        0 => if t.chance(128) { BLOCK[t.below(3)] } else { t.pick(BLOCK) }.to_string(),
+        _ => if t.chance(128) { LINE[0] } else { t.pick(LINE) }.to_string(),
     };
     let mut s = String::with_capacity(src.len() + 64);
     s.push_str(&src[..at]);
